@@ -158,8 +158,13 @@ func writeHRD(w *BitWriter, h *avc.HrdParameters) {
 
 // SerializeAVCSPS writes the SPS NAL unit (nal_unit_type 7) for the tree.
 func SerializeAVCSPS(t *AVCSPSTree) ([]byte, AVCSPSBits) {
+	return SerializeAVCSPSH(t, nil)
+}
+
+// SerializeAVCSPSH is SerializeAVCSPS with a hostile-value hook on the bit writer (nil: none); see Hostile.
+func SerializeAVCSPSH(t *AVCSPSTree, hz *Hostile) ([]byte, AVCSPSBits) {
 	s := &t.S
-	w := NewBitWriter()
+	w := NewHostileBitWriter(hz)
 	w.U(uint64(s.Profile), 8)
 	w.U(uint64(s.ProfileCompatibility), 8) // constraint_set0..5_flag + reserved_zero_2bits
 	w.U(uint64(s.Level), 8)
@@ -320,8 +325,13 @@ func AVCNumPicScalingLists(chromaFormatIDC byte, transform8x8 bool) int {
 // SerializeAVCPPS writes the PPS NAL unit (nal_unit_type 8). chromaFormatIDC is that of the SPS the PPS
 // refers to (it determines the number of pic scaling lists). Returns the NAL unit and the RBSP.
 func SerializeAVCPPS(t *AVCPPSTree, chromaFormatIDC byte) ([]byte, []byte) {
+	return SerializeAVCPPSH(t, chromaFormatIDC, nil)
+}
+
+// SerializeAVCPPSH is SerializeAVCPPS with a hostile-value hook on the bit writer (nil: none); see Hostile.
+func SerializeAVCPPSH(t *AVCPPSTree, chromaFormatIDC byte, hz *Hostile) ([]byte, []byte) {
 	p := &t.P
-	w := NewBitWriter()
+	w := NewHostileBitWriter(hz)
 	w.UE(uint64(p.PicParameterSetID))
 	w.UE(uint64(p.SeqParameterSetID))
 	w.Flag(p.EntropyCodingModeFlag)
@@ -485,6 +495,11 @@ func writePredWeights(w *BitWriter, n uint32, pw []PredWeight, chroma bool) {
 
 // SerializeAVCSlice writes a slice NAL unit whose header refers to pps (which refers to sps).
 func SerializeAVCSlice(t *AVCSliceTree, sps *AVCSPSTree, pps *AVCPPSTree) ([]byte, AVCSliceBits) {
+	return SerializeAVCSliceH(t, sps, pps, nil)
+}
+
+// SerializeAVCSliceH is SerializeAVCSlice with a hostile-value hook on the bit writer (nil: none); see Hostile.
+func SerializeAVCSliceH(t *AVCSliceTree, sps *AVCSPSTree, pps *AVCPPSTree, hz *Hostile) ([]byte, AVCSliceBits) {
 	h := &t.H
 	s := &sps.S
 	p := &pps.P
@@ -499,7 +514,7 @@ func SerializeAVCSlice(t *AVCSliceTree, sps *AVCSPSTree, pps *AVCPPSTree) ([]byt
 	}
 	var info AVCSliceBits
 
-	w := NewBitWriter()
+	w := NewHostileBitWriter(hz)
 	w.UE(uint64(h.FirstMBInSlice))
 	w.UE(uint64(h.SliceType))
 	w.UE(uint64(h.PicParamID))
